@@ -6,7 +6,7 @@ CONSTANT CvKeys = {"k1"}
 CONSTANT RevKeys = {"k2"}
 CONSTANT DocOf <- MCDocOf
 CONSTANT Contents = {"c1", "c2"}
-CONSTANT Configs <- CfEnv
+CONSTANT Configs <- CfEnvThorough
 CONSTANT Fails = {"ok", "fd", "fr"}
 CONSTANT FailKeys = {"k2"}
 CONSTANT OpSet = {"Get", "GetActive", "Put", "Upsert", "Remove", "Peek"}
@@ -14,7 +14,7 @@ CONSTANT FreePut = FALSE
 CONSTANT MaxOps = 2
 CONSTANT MaxSteps = 3
 CONSTANT Pool = 4
-CONSTANT SeqPrefix = 1
+CONSTANT SeqPrefix = 0
 SPECIFICATION Spec
 VIEW view
 INVARIANT Bounded
